@@ -55,7 +55,7 @@ theorem islanded_buses_are_degree_zero (n : Nat) (es : List Edge) (j : Nat) :
     · exact (h e he hu).1 hf
     · exact (h e he hu).2 hf
 
-theorem islanded_buses_sorted_nodup (n : Nat) (es : List Edge) : (islanded n es).Nodup := islanded_nodup n es
+theorem islanded_buses_nodup (n : Nat) (es : List Edge) : (islanded n es).Nodup := islanded_nodup n es
 
 /-! ## islands -/
 
